@@ -1132,8 +1132,15 @@ func runSession(run *vh.Run, label string, hf *config.HardforkConfig, warp bool,
 	s := &session{w: w, run: run, rng: w.rng, warp: warp, staked: map[int]bool{}, reps: run.Pick(3, 25)}
 	s.P = w.newNode("P")
 	s.V = w.newNode("V")
-	defer s.P.close()
-	defer s.V.close()
+	clean := false
+	defer func() {
+		// after a failure the nodes are abandoned, not stopped: a validator that rejected a block may still have
+		// signature-verification goroutines in flight, and stopping the service under them would kill the process
+		if clean {
+			s.P.close()
+			s.V.close()
+		}
+	}()
 	s.parent, _ = s.P.cs.GetBestBlock()
 	if hx(s.parent.BlockHash()) != hx(must2(s.V.cs.GetBestBlock()).BlockHash()) {
 		s.fail("two nodes booted from one genesis disagree on the genesis block", nil)
@@ -1144,6 +1151,7 @@ func runSession(run *vh.Run, label string, hf *config.HardforkConfig, warp bool,
 			return
 		}
 	}
+	clean = true
 	run.Count("session " + label + " completed")
 }
 
